@@ -391,14 +391,69 @@ fn capacity(f: &Facts) -> Result<(), String> {
                 .filter(|c| c.tag.is_some() && c.res == Res::Ok && !matches!(c.op, Op::FSend(_) | Op::FDrop(_)))
                 .map(|c| c.ret)
                 .collect();
-            let takes: Vec<(u64, usize)> = f
-                .h
-                .calls
-                .iter()
-                .filter(|c| is_recv_result(c))
-                .map(|c| (c.inv, vals_of(c).len()))
-                .filter(|x| x.1 > 0)
-                .collect();
+            // a receive operation "begins" when it is invoked; for a future or
+            // a stream wait that is the first poll of that wait, not the poll
+            // that finally returned the value.  A receive future that was
+            // registered and never polled to completion may have absorbed one
+            // value (it is dropped with it): it counts as a possible take.
+            let mut takes: Vec<(u64, usize)> = Vec::new();
+            let nthreads = f.p.threads.len();
+            for t in 0..nthreads {
+                let mut calls: Vec<&Call> = f.h.calls.iter().filter(|c| c.thread == t).collect();
+                calls.sort_by_key(|c| c.idx);
+                // per slot: stamp at which the current wait began, and whether
+                // it is a receive-side future
+                let mut begin: [Option<u64>; 4] = [None; 4];
+                let mut is_recv: [bool; 4] = [false; 4];
+                for c in calls {
+                    match c.op {
+                        Op::FRecv(s) | Op::FStream(s) => {
+                            is_recv[s as usize] = true;
+                            begin[s as usize] = None;
+                        }
+                        Op::FSend(s) => {
+                            is_recv[s as usize] = false;
+                            begin[s as usize] = None;
+                        }
+                        Op::Poll(s, _) | Op::StreamNext(s) if is_recv[s as usize] => {
+                            let s = s as usize;
+                            let b = *begin[s].get_or_insert(c.inv);
+                            let n = vals_of(c).len();
+                            if n > 0 {
+                                takes.push((b, n));
+                                begin[s] = None;
+                            } else if !matches!(c.res, Res::Pending) {
+                                begin[s] = None;
+                            }
+                        }
+                        Op::FDrop(s) => {
+                            let s = s as usize;
+                            if is_recv[s] {
+                                if let Some(b) = begin[s].take() {
+                                    takes.push((b, 1));
+                                }
+                            }
+                            is_recv[s] = false;
+                        }
+                        _ => {
+                            if is_recv_result(c) && !matches!(c.op, Op::Poll(..) | Op::StreamNext(_)) {
+                                let n = vals_of(c).len();
+                                if n > 0 {
+                                    takes.push((c.inv, n));
+                                }
+                            }
+                        }
+                    }
+                }
+                // waits still pending at the end of the thread
+                for s in 0..4 {
+                    if is_recv[s] {
+                        if let Some(b) = begin[s] {
+                            takes.push((b, 1));
+                        }
+                    }
+                }
+            }
             for &t in &succ {
                 let s = succ.iter().filter(|&&x| x <= t).count() as i64;
                 let r: i64 = takes.iter().filter(|x| x.0 <= t).map(|x| x.1 as i64).sum();
